@@ -264,6 +264,9 @@ def r16_8(ctx):
 
 
 def run(ctx):
+    ctx.rule("R16.10", "an attribute is a namespace declaration iff its prefix is xmlns or it is the unprefixed attribute xmlns (all six (prefix, local) points of both filter predicates of process_namespaces, read from the syntax tree); the declaring and the binding pass are complements")
+    from . import nsdecl
+    ctx.guard("R16.10", "declaration-predicates", lambda: nsdecl.declaration_predicates(ctx, "R16.10"))
     ctx.rule("R16.9", "the element stack that carries the namespace scopes: end tags close by expanded name, start tags push, empty tags do not")
     ctx.guard("R16.9", "element-stack", lambda: r16_9(ctx))
     ctx.rule("R16.8", "an attribute is dropped only as a duplicate by expanded name - never because its prefix is unbound")
